@@ -1,4 +1,4 @@
-import Txtpp.Lemmas.ConcreteCoord
+import Txtpp.Lemmas.ConcreteTrace
 import Txtpp.Lemmas.Term
 import Txtpp.Lemmas.CoordScanInv
 import Txtpp.Lemmas.SeenClosure
@@ -106,16 +106,34 @@ the coordinator's panic branch -/
 theorem whole_run_never_panics (cfg : Txt.Cfg) (fs : Txt.FS) (inputs : List (List Char)) :
     (Txt.runProject cfg fs inputs).1 ≠ .panic := Txt.runProject_never_panics cfg fs inputs
 
-/-- **success means completion, for the concrete run**: if `Txtpp::run` (real passes over the model file
-system) ends `ok`, then at the end nothing is in flight, every resolved input is known to the coordinator,
-every file it ever heard of - inputs and every dependency a first pass reported, transitively - has
-completed a pass that ended `ok`, and every reported dependency is among those files -/
-theorem concrete_success_means_completion (cfg : Txt.Cfg) (fs : Txt.FS) (inputs : List (List Char))
+/-- **success means completion, for the concrete run.** `runProjectT` is `Txtpp::run` over the model file
+system together with its trace: the resolved input indices, the last state, and the deliveries (task, result)
+that really happened. If the verdict is `ok`: nothing is in flight, every resolved input is known to the
+coordinator, every file it ever heard of has a delivery `(pass, ok)` in the trace, every dependency list in
+the trace lies within those files, and no task was delivered twice. -/
+theorem concrete_success_means_completion (cfg : Txt.Cfg) (fs : Txt.FS) (inputs : List (List Char)) (idx : List File)
+    (s : Txt.PSt) (hist : List (Task × Res)) (ht : Txt.runProjectT cfg fs inputs = some (idx, s, hist))
     (h : (Txt.runProject cfg fs inputs).1 = .ok) :
-    ∃ (idx : List File) (s : St) (hist : List (Task × Res)),
-      FReach idx s hist ∧ s.pool = [] ∧ (∀ i ∈ idx, i ∈ s.seen) ∧
-      (∀ f ∈ s.seen, ∃ b, (Task.pp f b, Res.ok f) ∈ hist) ∧
-      (∀ f deps, (Task.pp f true, Res.hasDeps f deps) ∈ hist → ∀ d ∈ deps, d ∈ s.seen) :=
-  Txt.runProject_ok_complete cfg fs inputs h
+    s.st.pool = [] ∧ (∀ i ∈ idx, i ∈ s.st.seen) ∧
+    (∀ f ∈ s.st.seen, ∃ b, (Task.pp f b, Res.ok f) ∈ hist) ∧
+    (∀ f deps, (Task.pp f true, Res.hasDeps f deps) ∈ hist → ∀ d ∈ deps, d ∈ s.st.seen) ∧
+    (hist.map Prod.fst).Nodup :=
+  Txt.trace_ok_complete cfg fs inputs idx s hist ht h
+
+/-- the trace is an execution of the coordinator (with the results the real passes gave) from the resolved
+inputs, it ends in the file system `runProject` returns, and every run that resolves its inputs has one -/
+theorem concrete_trace_is_a_coordinator_execution (cfg : Txt.Cfg) (fs : Txt.FS) (inputs : List (List Char)) (idx : List File)
+    (s : Txt.PSt) (hist : List (Task × Res)) (ht : Txt.runProjectT cfg fs inputs = some (idx, s, hist)) :
+    FReach idx s.st hist ∧ s.fs = (Txt.runProject cfg fs inputs).2 :=
+  ⟨(Txt.runProjectT_freach cfg fs inputs idx s hist ht).1, (Txt.runProjectT_freach cfg fs inputs idx s hist ht).2.2.1⟩
+
+/-- **budget of the concrete run**: at most two deliveries per file named, each task once; the fuel of the
+reference model (`4·(files+4)`) runs out only if the run named at least twice as many distinct paths as
+the tree had files -/
+theorem concrete_run_budget (cfg : Txt.Cfg) (fs : Txt.FS) (inputs : List (List Char)) (idx : List File)
+    (s : Txt.PSt) (hist : List (Task × Res)) (ht : Txt.runProjectT cfg fs inputs = some (idx, s, hist)) :
+    hist.length ≤ 2 * s.names.length ∧ (hist.map Prod.fst).Nodup ∧
+    ((Txt.runProject cfg fs inputs).1 = .outOfFuel → 2 * (fs.files.length + 4) ≤ s.names.length) :=
+  Txt.trace_budget cfg fs inputs idx s hist ht
 
 end C03
